@@ -452,33 +452,38 @@ func ruleC02Immut(cx *Ctx) {
 // ruleC12Sites: who writes deadlines.
 func ruleC12Sites(cx *Ctx) {
 	const rule = "C12.sites"
-	cx.R.Rule(rule, 1, "deadline setters of nodes are invoked only by the known computation sites; xmath.SaturatedAdd clamps on overflow")
-	allowed := map[string]string{
-		"(*cache).setExpiresAfterRead":     "read hook / SetExpiresAfter (CAS on the current deadline)",
-		"(*cache).calcExpiresAtAfterWrite": "create/update hook on a fresh node",
-		"(*cache).calcRefreshableAt":       "refresh hooks",
-		"(*cache).SetRefreshableAfter":     "explicit override",
+	cx.R.Rule(rule, 1, "no deadline store is reachable from the operations that neither write nor read an entry for the user (quiet reads, removals, maintenance, iteration, size queries); xmath.SaturatedAdd clamps on overflow")
+	// a census by reachability, not by the name of the function that happens to contain the store: the operations that
+	// neither write nor read an entry for the user (quiet reads, removals, maintenance, iteration, size queries) reach no
+	// deadline store; what the writing operations store is decided by C12.hook / C12.sat on their path summaries
+	isSetter := func(in ssa.Instruction) bool {
+		n := invokeName(in)
+		if n != "SetExpiresAt" && n != "CASExpiresAt" && n != "SetRefreshableAt" && n != "CASRefreshableAt" {
+			return false
+		}
+		return isNodeIface(namedTypeName(callCommon(in).Value.Type()))
 	}
-	seen := map[string]bool{}
+	nw := 0
 	for _, fn := range cx.P.ModuleFuncs() {
 		if fn.Pkg != nil && strings.HasSuffix(fn.Pkg.Pkg.Path(), nodePkg) {
 			continue
 		}
 		allInstrs(fn, func(in ssa.Instruction) {
-			n := invokeName(in)
-			if n != "SetExpiresAt" && n != "CASExpiresAt" && n != "SetRefreshableAt" && n != "CASRefreshableAt" {
-				return
+			if isSetter(in) {
+				nw++
 			}
-			name := funcName(outermost(fn))
-			why, ok := allowed[name]
-			seen[name] = true
-			cx.R.Check(ok, rule, funcName(fn), n, cx.P.where(in), "deadline writer is one of the known computation sites: "+why)
 		})
 	}
-	for name := range allowed {
-		if !seen[name] {
-			cx.R.Undecided(rule, name, "site", "-", "known deadline computation site no longer writes a deadline")
+	cx.R.Check(nw >= 3, rule, "cache", "deadline stores found", "-", fmt.Sprintf("%d", nw))
+	lockOrderProg = cx.P
+	quiet := []string{"GetEntryQuietly", "Invalidate", "InvalidateAll", "CleanUp", "maintenance", "evictNode", "runTask", "SetMaximum", "GetMaximum", "WeightedSize", "EstimatedSize", "All", "Keys", "Values", "Hottest", "Coldest", "Stats", "periodicCleanUp"}
+	for _, m := range quiet {
+		fn := cx.P.Func("", "cache", m)
+		if fn == nil {
+			continue
 		}
+		bad, where := reachesInstr(fn, isSetter, map[*ssa.Function]bool{}, nil)
+		cx.R.Check(!bad, rule, "(*cache)."+m, "reaches no deadline store", cx.P.Pos(fn.Pos()), "an operation that neither writes nor reads an entry for the user never moves a deadline "+where)
 	}
 	// SaturatedAdd: returns MaxInt64 on the overflow edge
 	sa := cx.need(rule, "internal/xmath", "", "SaturatedAdd")
@@ -568,6 +573,20 @@ func allowedDeadlineGuard(c ssa.Value) bool {
 					if c, ok := e.(*ssa.Call); ok && c.Call.IsInvoke() {
 						return true
 					}
+				}
+				// an absolute difference written out: phi(a-b, -(a-b))
+				abs := len(y.Edges) > 0
+				for _, e := range y.Edges {
+					e = stripConv(e)
+					if u, ok := e.(*ssa.UnOp); ok && u.Op == token.SUB {
+						e = stripConv(u.X)
+					}
+					if b, ok := e.(*ssa.BinOp); !ok || b.Op != token.SUB {
+						abs = false
+					}
+				}
+				if abs {
+					return true
 				}
 			case *ssa.BinOp:
 				return y.Op == token.SUB
